@@ -152,6 +152,6 @@ MUTANTS = [
     # ---- U-TMONO
     dict(name="tmono-drop-vec-arm", prop="C07", units=["u_tmono"], file="crates/compiler/src/mono.rs", expect=1,
          old="            Ty::TVec { elem } => Ty::TVec {\n                elem: Box::new(self.collapse_type_apps(elem)),\n            },\n", new=""),
-    dict(name="tmono-array-elem-not-collapsed", prop="C07", units=["u_tmono"], file="crates/compiler/src/mono.rs", expect=1,
-         old="                len: *len,\n                elem: Box::new(self.collapse_type_apps(elem)),", new="                len: *len,\n                elem: elem.clone(),"),
+    dict(name="tmono-ref-arm-dropped", prop="C07", units=["u_tmono"], file="crates/compiler/src/mono.rs", expect=1,
+         old="            Ty::TRef { elem } => Ty::TRef {\n                elem: Box::new(self.collapse_type_apps(elem)),\n            },\n            _ => ty.clone(),", new="            _ => ty.clone(),"),
 ]
